@@ -123,6 +123,15 @@ register(Contract(
                      ' for k in range(_i))' % (BN % 'k', BN % 'k', BN % 'k', BN % 'k', BN % 'k', BN % 'm', BN % 'k'),
         }),
     },
+    cuts={'block = PythonBytecodeBlock(': {
+        'name': 'name == %s and begin == offsets[_i] and term_offset == end - 2' % (BN % '_i'),
+        'end': 'end == (offsets[_i + 1] if _i + 1 < len(offsets) else end_offset)',
+        'targets-jump': 'implies(term_offset in self.jump_insts, len(targets) == len(self.jump_insts[term_offset])'
+                        ' and all(any(offsets[m] == self.jump_insts[term_offset][j] and targets[j] == %s for m in range(len(offsets)))'
+                        ' for j in range(len(self.jump_insts[term_offset]))))' % (BN % 'm'),
+        'targets-fall': 'implies(term_offset not in self.jump_insts, _i + 1 < len(offsets) and targets == (%s,))' % (BN % '(_i + 1)'),
+    }},
+    slices=8,
     properties=['C09'], gen='flowinfo',
 ))
 
